@@ -66,14 +66,27 @@ const PRELUDE = new vm.Script(`(function(){
     seen.pop();
     return out;
   }
+  // serialisation invokes accessors; an accessor that calls $ again must not log or recurse
+  let busy = false;
   const dollar = function () {
-    const parts = [];
-    for (let i = 0; i < arguments.length; i++) parts.push(ser(arguments[i], 0, []));
-    if (LOG.length < 4000) LOG.push(parts.join(' '));
+    if (busy) return arguments[0];
+    busy = true;
+    try {
+      const parts = [];
+      for (let i = 0; i < arguments.length; i++) parts.push(ser(arguments[i], 0, []));
+      if (LOG.length < 4000) LOG.push(parts.join(' '));
+    } finally {
+      busy = false;
+    }
     return arguments[0];
   };
+  const serGuarded = function (v) {
+    if (busy) return 'busy';
+    busy = true;
+    try { return ser(v, 0, []); } finally { busy = false; }
+  };
   Object.defineProperty(globalThis, '$', { value: dollar, writable: false, configurable: false, enumerable: false });
-  Object.defineProperty(globalThis, '__verif', { value: { LOG, ser: (v) => ser(v, 0, []) }, writable: false, configurable: false, enumerable: false });
+  Object.defineProperty(globalThis, '__verif', { value: { LOG, ser: serGuarded }, writable: false, configurable: false, enumerable: false });
   // reflection the minifier may disturb
   Function.prototype.toString = function () { return 'function(){}'; };
   Object.defineProperty(RegExp.prototype, 'source', { get() { return 're'; }, configurable: true });
@@ -126,10 +139,10 @@ async function run(req) {
       } catch (e) {
         return { status: 'syntax', obs: 'link: ' + String(e && e.message) };
       }
-      await mod.evaluate({ timeout: 400 });
+      await mod.evaluate({ timeout: req.timeout || 400 });
       ns = mod.namespace;
     } else {
-      script.runInContext(ctx, { timeout: 400 });
+      script.runInContext(ctx, { timeout: req.timeout || 400 });
     }
   } catch (e) {
     if (e && e.code === 'ERR_SCRIPT_EXECUTION_TIMEOUT') return { status: 'timeout', obs: '' };
